@@ -174,6 +174,62 @@ def check_literals(ctx: Ctx, prop_rule: str, env: EnvA, sl, root, lits, what: st
             ctx.ob(rid, inst, worst != direction, sl.where,
                    f"{show_leaf(leaf)}  vs reference {describe(lit)}" + (f": {why}. {lit.why}" if worst == direction else ""),
                    construct=f"{sl.fi.qualname}:{lit.name}:{direction}")
+    if direction == "looser":
+        connective_matrix(ctx, id_presence, env, sl, lits, m, what)
+
+
+def connective_matrix(ctx: Ctx, rid: str, env: EnvA, sl, lits, m, what: str):
+    """Alternatives of a disjunctive constraint: the literals tied together by `conj_with` form one alternative each.  Inside an
+    alternative every pair of literals meets at an AND, literals of different alternatives meet at an OR, and an alternative
+    literal meets every top-level conjunct at an AND.  (`(A | ~B) & C` keeps every literal, every polarity and every
+    `conj_with` pair of `A & ~B & C`, but admits actions the constraint forbids.)"""
+    parent = {}
+
+    def find(x):
+        while parent.get(x, x) != x:
+            x = parent[x]
+        return x
+
+    grouped = [l for l in lits if l.conj_with]
+    if not grouped:
+        return
+    for l in grouped:
+        parent.setdefault(l.name, l.name)
+        parent.setdefault(l.conj_with, l.conj_with)
+        parent[find(l.name)] = find(l.conj_with)
+    groups = {}
+    for name in parent:
+        leaf = m.get(name, (None,))[0]
+        if leaf is not None:
+            groups.setdefault(find(name), []).append((name, leaf))
+    bad = []
+    n_pairs = 0
+    gl = sorted(groups.items())
+    for gi, (g, members) in enumerate(gl):
+        for i in range(len(members)):
+            for j in range(i + 1, len(members)):
+                n_pairs += 1
+                op = nf.lca_op(members[i][1], members[j][1])
+                if op != "and":
+                    bad.append(f"'{members[i][0]}' and '{members[j][0]}' (one alternative) meet at {op or 'no common connective'}")
+        for g2, members2 in gl[gi + 1:]:
+            for a in members:
+                for b in members2:
+                    n_pairs += 1
+                    op = nf.lca_op(a[1], b[1])
+                    if op != "or":
+                        bad.append(f"'{a[0]}' and '{b[0]}' (different alternatives) meet at {op or 'no common connective'}")
+    top = [(l.name, m[l.name][0]) for l in lits if l.conj and not l.alt and l.kind in ("cmp", "cell") and m.get(l.name, (None,))[0] is not None and l.name not in parent]
+    for g, members in gl:
+        for a in members:
+            for t in top:
+                n_pairs += 1
+                op = nf.lca_op(a[1], t[1])
+                if op != "and":
+                    bad.append(f"'{a[0]}' (alternative) and top-level '{t[0]}' meet at {op or 'no common connective'}")
+    ctx.ob(rid, f"{env.name}.{what}:alternatives:connectives", not bad, sl.where,
+           f"{len(gl)} alternative(s), {n_pairs} literal pairs meet at the reference connective" if not bad else "; ".join(bad[:4]),
+           construct=f"{sl.fi.qualname}:alternatives:connectives")
 
 
 def describe(lit: Lit) -> str:
